@@ -71,6 +71,7 @@ fn main() {
     let opts = parse_args();
     // build the base image before any worker starts (deterministic, once per process)
     let _ = world::base_image();
+    let _ = world::base_image_with(true);
     let code = match opts.property.as_str() {
         "C17" => standard_main(
             &opts,
@@ -85,7 +86,7 @@ fn main() {
                 required_faults: &[],
             },
             vec![(
-                PhaseSpec { label: "kml", quick_runs: 400, thorough_runs: 30000, quick_budget_s: 70.0, thorough_budget_s: 1200.0 },
+                PhaseSpec { label: "kml", quick_runs: 1500, thorough_runs: 30000, quick_budget_s: 70.0, thorough_budget_s: 1200.0 },
                 Arc::new(H { kind: "c17" }),
             )],
         ),
@@ -123,7 +124,7 @@ fn main() {
                 required_faults: &[],
             },
             vec![(
-                PhaseSpec { label: "governance", quick_runs: 360, thorough_runs: 30000, quick_budget_s: 70.0, thorough_budget_s: 1200.0 },
+                PhaseSpec { label: "governance", quick_runs: 1200, thorough_runs: 30000, quick_budget_s: 70.0, thorough_budget_s: 1200.0 },
                 Arc::new(H { kind: "c19" }),
             )],
         ),
